@@ -47,10 +47,7 @@ Definition s_add (s : state) (p : path) : res :=
     (* "pathspec is beyond a symbolic link" *)
     if existsb (fun f => is_link (wf_mode f) && under (wf_path f) p) (st_wt s) then RErr s
     else if is_dir_wt s p then
-      (* every file below p ignored and untracked: "paths are ignored" *)
-      if forallb (fun f => negb (under p (wf_path f)) || git_skips s f) (st_wt s)
-         && negb (existsb (fun e => under p (ie_path e)) (st_index s)) then RErr s
-      else ROk (with_index s (git_add_scope s (fun q => under p q || bytes_eqb p q)))
+      ROk (with_index s (git_add_scope s (fun q => under p q || bytes_eqb p q)))
     else if is_some (find_i (st_index s) p) then ROk (with_index s (idx_remove (st_index s) p))
     else if existsb (fun e => under p (ie_path e)) (st_index s)
          then ROk (with_index s (git_add_scope s (fun q => under p q)))
@@ -59,7 +56,9 @@ Definition s_add (s : state) (p : path) : res :=
 
 Definition s_rm (s : state) (p : path) : res :=
   match find_i (st_index s) p with
-  | Some _ => ROk (with_both s (idx_remove (st_index s) p) (wt_remove (st_wt s) p))
+  | Some _ =>
+    if is_dir_wt s p && negb (has_file s p) then RErr s      (* the entry's path is a directory now: unlink fails *)
+    else ROk (with_both s (idx_remove (st_index s) p) (wt_remove (st_wt s) p))
   | None =>
     let victims := filter (under p) (map ie_path (st_index s)) in
     match victims with
